@@ -780,9 +780,10 @@ class Inliner:
             s["vars"] = named
         if len(s.get("vars", [])) != 1:
             return None
-        sg = self.struct_guard(s)
-        if sg is not None:
-            return sg
+        lg = self.lambda_guard(s)
+        return lg if lg is not None else self.struct_guard(s)
+
+    def lambda_guard(self, s):
         init = s["vars"][0].get("init")
         init = unwrap(init) if init is not None else None
         if not (isinstance(init, dict) and init.get("k") == "Construct" and not init.get("copymove") and len(init.get("args", [])) == 1):
